@@ -4,3 +4,4 @@ import Tx3Proofs.C09
 #print axioms Tx3.PData.C09_constr_tag
 #print axioms Tx3.C09_struct
 #print axioms Tx3.C09_roundtrip_of_expr
+#print axioms Tx3.PData.C09_bytes_read_write
